@@ -162,6 +162,8 @@ def check(ctx):
         if not ok:
             viol("R-C09.1", f"punct:{p}", f"punctuator `{p}` is tokenised as {res} (expected one {want[0] if want else '?'} token of length {len(p)})", "_fixed_tokens")
     token_spelling_sites(ctx, "R-C09.1")
+    from . import c01
+    c01.keyword_spellings(ctx, "R-C09.3")          # keyword vs identifier: exactly the C keywords are keywords
     mt = lx.method("CLexer", "_match_token")
 
     # ---- R-C09.2 ------------------------------------------------------------------
